@@ -270,7 +270,12 @@ class UnitRegistry:
         # would create objects that are equal but not identical to unyt's
         # dimension singletons, which are compared by identity.
         lut = dict(self.lut)
-        return type(self)(lut=lut)
+        # The copy holds exactly what this registry holds: the default symbols
+        # must not be added again (that would undo modify() and remove() of
+        # default symbols), and it keeps this registry's unit system.
+        return type(self)(
+            lut=lut, add_default_symbols=False, unit_system=self.unit_system
+        )
 
 
 class _NonModifiableUnitRegistry(UnitRegistry):
